@@ -241,12 +241,28 @@ func (e *vEnv) SnapshotIDs() ([]string, error) {
 	return ids, err
 }
 
-// WithRepo opens the repository (no lock, index not loaded) and calls fn.
+// WithRepo opens the repository READ-ONLY (no lock => dry-run mode: writes are dropped; index not loaded) and calls fn.
 func (e *vEnv) WithRepo(fn func(ctx context.Context, repo *repository.Repository) error) error {
 	g := e.gopts
 	_, err := e.call(g, func(ctx context.Context, gopts global.Options) error {
 		printer := progress.NewTerminalPrinter(false, 0, gopts.Term)
 		ctx, repo, unlock, err := openWithReadLock(ctx, gopts, true, printer)
+		if err != nil {
+			return err
+		}
+		defer unlock()
+		return fn(ctx, repo)
+	})
+	return err
+}
+
+// WithRepoRW opens the repository for writing (takes a normal non-exclusive lock) and calls fn.
+// WithRepo, in contrast, opens without lock, which puts the repository into dry-run mode:
+// every write through it is silently dropped.
+func (e *vEnv) WithRepoRW(fn func(ctx context.Context, repo *repository.Repository) error) error {
+	_, err := e.call(e.gopts, func(ctx context.Context, gopts global.Options) error {
+		printer := progress.NewTerminalPrinter(false, 0, gopts.Term)
+		ctx, repo, unlock, err := openWithAppendLock(ctx, gopts, false, printer)
 		if err != nil {
 			return err
 		}
